@@ -138,6 +138,9 @@ package reader
 //@ func tokenize(sourceCode, cursor) (r, e)
 //@   requires cursor != nil
 //@   panics never
+//@   ensures implies(e == nil, forall(j, 0, len(r), r[j].Cursor.BeginRow == r[j].Cursor.Row && r[j].Cursor.Module == cursor.Module)) @C17
+//@   loop 1 invariant forall(j, 0, len(result), result[j].Cursor.BeginRow == result[j].Cursor.Row) @C17
+//@   loop 1 invariant forall(j, 0, len(result), result[j].Cursor.Module == cursor.Module) @C17
 
 //@ func Read_str(str, cursor, placeholderValues, ns) (r, e)
 //@   requires len(ns) == 0 || ns[0] == nil || validEnvVal(ns[0])
